@@ -250,6 +250,7 @@ type prefixOrigin struct {
 	Collector *prefixCollector
 	Index     ssa.Value
 	Call      *ssa.Call
+	Phi       *ssa.Phi // set when the collector result is loop-carried: Call is then one of its incoming calls
 }
 
 func prefixOriginOf(x ssa.Value) *prefixOrigin {
@@ -267,6 +268,26 @@ func prefixOriginOf(x ssa.Value) *prefixOrigin {
 			}
 		}
 	}
+	// a loop-carried result (`for p := f(s); len(p) > 0; p = f(s)`): every incoming value is a call of one collector
+	if ph, ok := base.(*ssa.Phi); ok {
+		var po *prefixOrigin
+		for _, e := range ph.Edges {
+			call, ok := e.(*ssa.Call)
+			if !ok {
+				return nil
+			}
+			callee := staticCallee(call)
+			if callee == nil {
+				return nil
+			}
+			pc := prefixCollectorOf(callee)
+			if pc == nil || (po != nil && po.Collector != pc) {
+				return nil
+			}
+			po = &prefixOrigin{Kind: "collector", Table: pc.Table, Collector: pc, Index: idx, Call: call, Phi: ph}
+		}
+		return po
+	}
 	return nil
 }
 
@@ -276,7 +297,21 @@ func isPrefixOf(x, s ssa.Value, at ssa.Instruction) bool {
 		return true
 	}
 	if po := prefixOriginOf(x); po != nil && po.Kind == "collector" {
-		return sameValue(po.Call.Call.Args[po.Collector.Param], s)
+		if po.Phi == nil {
+			return sameValue(po.Call.Call.Args[po.Collector.Param], s)
+		}
+		// loop-carried: s must be a phi of the same block whose k-th incoming value is the argument of the k-th incoming call
+		sp, ok := s.(*ssa.Phi)
+		if !ok || sp.Block() != po.Phi.Block() {
+			return false
+		}
+		for k, e := range po.Phi.Edges {
+			call := e.(*ssa.Call)
+			if !sameValue(call.Call.Args[po.Collector.Param], sp.Edges[k]) {
+				return false
+			}
+		}
+		return true
 	}
 	return false
 }
